@@ -67,6 +67,33 @@ func c04Gen(c *core.Ctx, idx int) (*dp.Schema, *dp.DNode, bool) {
 	do.Hostile = idx%2 == 0
 	do.MaxEntries = 1 + r.Intn(4)
 	t := dp.GenTree(r, s, do)
+	if gm := c04GoMode(idx); gm != nil && gm.Shape == "struct" {
+		// an entry that is all zero values (key 0, nothing else set) ahead of the others: present like any other entry
+		var zero func(d *dp.DNode)
+		zero = func(d *dp.DNode) {
+			for _, l := range d.Lists {
+				if len(l.S.Keys) == 1 && r.Intn(2) == 0 {
+					switch k := l.S.Child(l.S.Keys[0]); k.Type.Base {
+					case "int8", "int16", "int32", "int64", "uint8", "uint16", "uint32", "uint64":
+						if k.Type.Wrap == "" {
+							if dup, _ := l.Find([]string{"0"}); dup == nil {
+								e := dp.NewDNode(l.S)
+								e.Leaves[k.Name] = &dp.LVal{V: []string{"0"}}
+								l.Entries = append([]*dp.DNode{e}, l.Entries...)
+							}
+						}
+					}
+				}
+				for _, e := range l.Entries {
+					zero(e)
+				}
+			}
+			for _, k := range d.Kids {
+				zero(k)
+			}
+		}
+		zero(t)
+	}
 	return s, t, true
 }
 
